@@ -305,7 +305,7 @@ class WalletWorld:
 
     def wallet_addresses(self, wi):
         h = self.H(wi)
-        return h.addresslist(depth=-1) if wi.kind == 'single' else h.addresslist()
+        return h.addresslist(depth=-1) if wi.kind == 'single' else h.addresslist(network=self.network)
 
     def acct(self, wi):
         """{} for single-account wallets (calls keep their default form), else {'account_id': a} for a drawn account."""
@@ -515,7 +515,7 @@ class WalletWorld:
             if lt == 'tip':
                 extra['locktime'] = self.chain.tip
             self.request_extra = dict(extra, amt_form=form, addr_form=aform)
-            if ch.coin('input_arr', 0.2):
+            if ch.coin('input_arr', 0.3):
                 # explicit input list: (txid, output_n, key_id, value) tuples the caller picked
                 self.quiet = True
                 try:
@@ -524,7 +524,7 @@ class WalletWorld:
                     self.quiet = False
                 need = sum(v for _, v in outs)
                 tup = lambda u: (u['txid'], u['output_n'], u['key_id'], u['value'])
-                ia_kind = ch.pick('ia_kind', ['valid', 'valid', 'short', 'rich', 'dup', 'spent'])
+                ia_kind = ch.pick('ia_kind', ['valid', 'valid', 'short', 'rich', 'dup', 'dup', 'spent'])
                 order = [all_us[i] for i in ch.perm('ia_order', len(all_us))] if all_us else []
                 ia = None
                 if ia_kind in ('valid', 'dup'):
@@ -552,10 +552,30 @@ class WalletWorld:
                         g = gone[ch.index('ia_spent', len(gone))]
                         ia = [(g[0], g[1])] + [tup(u) for u in order[:1]]
                 if ia:
+                    # the forms the documentation allows for an entry: a full tuple, (txid, output_n) only, or an Input
+                    # object (what select_inputs() returns)
+                    ia_form = ch.pick('ia_form', ['tuple', 'tuple', 'short', 'object', 'mixed'])
+                    if wi.kind == 'ms' and ia_form in ('object', 'mixed'):
+                        ia_form = 'short'
+                    if ia_form != 'tuple':
+                        from bitcoinlib.transactions import Input as _Input
+                        by_op = {(u['txid'], u['output_n']): u for u in all_us}
+                        par = ch.int('ia_par', 0, 1)
+                        conv = []
+                        for n_, e in enumerate(ia):
+                            u = by_op.get((e[0], e[1]))
+                            if ia_form == 'short' or u is None or len(e) < 4:
+                                conv.append(tuple(e[:2]))
+                            elif ia_form == 'object' or (n_ + par) % 2 == 0:
+                                conv.append(_Input(prev_txid=u['txid'], output_n=u['output_n'], value=u['value'],
+                                                   address=u['address'], witness_type=wi.wt, network=wi.network))
+                            else:
+                                conv.append(e)
+                        ia = conv
                     extra['input_arr'] = ia
                     extra.pop('max_utxos', None)
                     extra.pop('input_key_id', None)
-                    self.request_extra = dict(self.request_extra, input_arr=ia_kind, n_explicit=len(ia))
+                    self.request_extra = dict(self.request_extra, input_arr=ia_kind, n_explicit=len(ia), ia_form=ia_form)
                     self.request_extra.pop('max_utxos', None)
                     self.request_extra.pop('input_key_id', None)
                     us = all_us      # what is eligible for an explicit list: any unspent output of the wallet
